@@ -2192,6 +2192,24 @@ def run_argdef_oracle(ck):
     ck.cov["argdef_oracle"] = {"cases": n}
 
 
+def run_ref_oracle(ck):
+    """Attributes of every kind referenced (`_Ref`) inside a user-defined Function: call node and function body of the
+    built model (harness/lib_c10fun.py)."""
+    try:
+        from harness import lib_c10fun as F
+    except Exception as e:  # noqa: BLE001  the recipe's internals are gone: not a verdict
+        UNOBSERVABLE.setdefault("Function/_Ref recipe", f"{type(e).__name__}: {e}"[:200])
+        return
+    ck.count(("attr-ref", "function"))
+    try:
+        probs = F.run()
+    except Exception as e:  # noqa: BLE001  a reference to an attribute of the right kind must be accepted
+        probs = [(f"raises:{type(e).__name__}", f"building a Function whose body refers to its attributes raised {type(e).__name__}: {str(e)[:160]}")]
+    for key, what in probs:
+        ck.failure(f"attr-ref:{key}", f"Function with referenced attributes: {what}", {"kind": "attr_ref"})
+    ck.cov["ref_oracle"] = {"kinds": len(F.KINDS), "problems": len(probs)}
+
+
 def _site_rows(sinfo):
     import collections
 
@@ -2366,6 +2384,10 @@ def run(ck: core.Check):
     run_oracle(ck)
     ck.log("oracle done")
     try:
+        run_ref_oracle(ck)
+    except Exception as e:  # noqa: BLE001
+        ck.broken("correspondence", "C10 attribute-reference oracle not runnable", f"{type(e).__name__}: {e}"[:300])
+    try:
         run_argdef_oracle(ck)
     except Exception as e:  # noqa: BLE001
         ck.broken("correspondence", "C10 argument-default oracle not runnable", f"{type(e).__name__}: {e}"[:300])
@@ -2458,6 +2480,16 @@ def replay(ck: core.Check, doc) -> bool:
         for part, what in problems:
             print(f"{site.name}: {what}")
         return bool(problems)
+    if kind == "attr_ref":
+        from harness import lib_c10fun as F
+
+        try:
+            probs = F.run()
+        except Exception as e:  # noqa: BLE001
+            probs = [(f"raises:{type(e).__name__}", str(e)[:200])]
+        for k, w in probs:
+            print(f"{k}: {w}")
+        return bool(probs)
     if kind == "argdef":
         probs = argdef_case(case)
         for k, w in probs:
